@@ -141,7 +141,8 @@ def fallible_conv(c):
       'in Reach(ExprAST::exec) and in every built-in handler closure and its callees; each site must be discharged by D-guard (dominating is_some/is_ok edge on the same place), '
       'D-total (total constructor), D-lock (NO-POISON), D-range. NOWRAP: no primitive integer + - * / % or negation, no shift with a non-constant count, no narrowing / sign-changing / float->int `as` cast, '
       'no wrapping_/overflowing_/saturating_/unchecked_ method — this makes the verdict identical for debug and release builds (thorough re-extracts with overflow-checks off, --release and debug-assertions on and requires identical verdicts). '
-      'ERRD: every crate Result and every checked_*/try_from/parse result in that scope is ?-propagated, returned, matched with a failing arm, or passed through a failure-preserving combinator.',
+      'ERRD: every crate Result and every checked_*/try_from/parse result in that scope is ?-propagated, returned, matched with a failing arm, or passed through a failure-preserving combinator. '
+      'HGATE / AGGR: an operand a built-in handler type-checks is type-checked on every path to Ok, and min / max / sum / mul leave their argument loop towards Ok only when every argument was looked at (no type mismatch is skipped by an early exit).',
       not_decided='nothing of the statement; rust_decimal\'s own totality (checked_* never panic) is trusted; stack exhaustion by deep trees is C01',
       assumptions=COMMON_ASSUME + ['rust_decimal checked_add/sub/mul/div/rem return None instead of panicking'])
 def c04(ctx):
@@ -158,6 +159,10 @@ def c04(ctx):
     em = eval_model(ctx)
     robs, nscc = r_term.rule_rec(tm, sorted(em.reach))
     obs += robs
+    # "every type mismatch is reported as Err": a type gate that is skipped on some path accepts the mismatch
+    obs += r_value.rule_hgate(ctx.prog, hs)
+    rows, probs = r_table.builtin_rows(ctx.prog, reg_model(ctx))
+    obs += r_top.with_views(ctx.prog, r_top.rule_aggr, rows)
     return obs, {'analysed': {'scope_bodies': len(bodies), 'builtin_handlers': len(hs), 'panic_sites': len(sites), 'recursive_sccs': nscc}}
 
 
@@ -200,7 +205,8 @@ def reg_model(ctx):
       '(precedence, type, associativity and handler of an infix operator are one entry: a lookup can never pair a new handler with an old precedence); register_* hand their parameters through unchanged and in order; only register_* and the fillers call writers. '
       'WDISP: the call-node evaluator consults the context first (Function entries only) and the global registry only on the None edge. RECV + STATICS: every invoked handler is the result of a lookup made in this evaluation; '
       'the static inventory is exactly {once flag, 4 registries, descriptor store}: no handler cache. '
-      'PARSE-NO-EVAL: below parse_expression no arithmetic / sign change is applied to a number (an operator folded into a literal at parse time would never consult the registry).',
+      'PARSE-NO-EVAL: below parse_expression no arithmetic / sign change is applied to a number (an operator folded into a literal at parse time would never consult the registry). '
+      'REG-SNAPSHOT: no struct of the crate is built from a registry read (no per-parser / per-context copy of the tables that later registrations would not reach).',
       not_decided='that an infix operator registered with an arbitrary precedence groups correctly against every neighbour (binding-power arithmetic over unboundedly many loop iterations: a value property; see DESIGN §4.8 / WGATE)',
       assumptions=COMMON_ASSUME)
 def c08(ctx):
@@ -215,6 +221,7 @@ def c08(ctx):
     obs += r_parse.fallback(r_prec.rule_wgate, parse_roles(ctx))
     obs += r_prec.rule_wassoc(ctx.prog)
     obs += r_num.rule_parse_no_eval(parse_roles(ctx))
+    obs += r_registry.rule_reg_snapshot(rm)
     return obs, {'analysed': {'writers': len(rm.writers), 'fillers': len(rm.fillers), 'must_init_bodies': len(rm.must_init)}}
 
 
@@ -238,6 +245,7 @@ def c13(ctx):
     obs += r_lock.rule_escape(lm)
     obs += r_lock.rule_notry(lm, classes=('REGISTRY', 'CONTEXT'))
     obs += r_lock.rule_floors(lm)
+    obs += r_registry.rule_reg_snapshot(rm)
     return obs, {'analysed': {'guard_live_call_sites': n, 'statics': len(ctx.facts.statics)}}
 
 
@@ -343,7 +351,7 @@ def c05(ctx):
     obs += r_parse.rule_wexpect(roles)
     obs += r_parse.fallback(r_parse.rule_closer, roles)
     obs += r_parse.fallback(r_parse.rule_sep, roles)
-    obs += r_parse.fallback(r_parse.rule_wprefix, roles, ctx.lm)
+    obs += r_parse.fallback(r_parse.rule_wprefix, roles, ctx.lm, merged=True)
     obs += r_parse.fallback(r_parse.rule_stray, roles)
     obs += r_parse.fallback(r_parse.rule_strterm, roles)
     obs += r_token.rule_charunits(roles)
@@ -479,7 +487,9 @@ def tok_roles(ctx):
 @prop('C10',
       'TSPAN: at every construction of a token, both span fields are proved in-bounds char boundaries (SLICE domain) and the token text is the input slice over exactly the span\'s range — same values by provenance, or two reads of the scanner position with no advancing call in between; '
       'String: input[span.start + 1 .. span.end - 1] (the characters between the quotes, a sub-slice of the input, never a built string: no escape processing); Number: the value is parsed from input[span]; text handed in as a parameter must come, together with the start, from one scanner call whose text is input[start .. position]. '
-      'SLICE: every slice bound is a char boundary (see C01). TWS: the whitespace predicate (role: the char predicate guarding the advance in the skipper that runs before the dispatching character is read), evaluated over a finite partition of char, accepts SP, TAB, CR, LF and nothing that is not Unicode white space. MUNCH: in the symbolic-operator scanner the run is extended iff the longer slice is a registered operator; no other condition cuts it short (longest registered operator).',
+      'SLICE: every slice bound is a char boundary (see C01). TWS: the whitespace predicate (role: the char predicate guarding the advance in the skipper that runs before the dispatching character is read), evaluated over a finite partition of char, accepts SP, TAB, CR, LF and nothing that is not Unicode white space. MUNCH: in the symbolic-operator scanner the run is extended iff the longer slice is a registered operator; no other condition cuts it short (longest registered operator). '
+      'WORDSCAN: the look-ahead that tests a word against the operator registry and the scanner that cuts the operator token consult character predicates with the same accepting set (sibling agreement over a finite partition of char). '
+      'CHARUNITS: a count-based step / counted loop over a character iterator is never given a byte quantity.',
       not_decided='classification (longest registered operator, whole-word operators, name( as function, bool keywords) and strict monotonicity of spans across a whole input: these depend on registry contents and iteration values',
       assumptions=COMMON_ASSUME)
 def c10(ctx):
@@ -493,6 +503,8 @@ def c10(ctx):
     obs += [o for o in sobs if o.key.startswith(('SLICE|ctor', 'SLICE|fields', 'SLICE|reassign', 'SLICE|floor'))]
     obs += r_token.rule_tspan(sm, roles)
     obs += r_token.rule_tws(tok_roles(ctx))
+    obs += r_token.rule_charunits(roles)
+    obs += r_token.rule_wordscan(roles, reg_model(ctx))
     obs += r_prec.rule_munch(roles, tok_roles(ctx).tm)
     return obs, {'analysed': {'slice_sites': len(sm.verdicts)}}
 
@@ -514,6 +526,9 @@ def c11(ctx):
     obs += r_token.rule_wws(tr)
     obs += r_parse.fallback(r_token.rule_wparen, roles)
     obs += [o for o in r_parse.fallback(r_prec.rule_wpostfix, roles) if '|gate|' in o.key or 'floor' in o.key]
+    # how far the scanner moves must not depend on byte lengths (else what follows an operator / literal is eaten or
+    # kept depending on how much whitespace separates it)
+    obs += r_token.rule_charunits(roles)
     return obs, {}
 
 
@@ -531,7 +546,7 @@ def c02(ctx):
         return obs, {}
     tobs, rows = r_table.rule_tprec(ctx, reg_model(ctx))
     obs += tobs
-    obs += r_parse.fallback(r_prec.rule_wunary, roles)
+    obs += r_parse.fallback(r_prec.rule_wunary, roles, merged=True)
     obs += r_parse.fallback(r_prec.rule_wtern, roles)
     obs += r_parse.fallback(r_prec.rule_wgate, roles)
     obs += r_prec.rule_wassoc(ctx.prog)
